@@ -15,6 +15,12 @@
 (* consumes.  The wire is a bounded FIFO.                                      *)
 (* Toggle FixSessionWriteLock: FALSE = as written (session envelopes bypass    *)
 (* the send mutex), TRUE = serialised with the data writes.                    *)
+(* Toggle FixSendGuardUnderLock: FALSE = as written: the established check of a *)
+(* data send happens only before it waits for the mutex, and the terminating   *)
+(* call changes the state after it has released the mutex, so a send that was  *)
+(* waiting writes its envelope behind the terminal session envelope.  TRUE =   *)
+(* the check is repeated under the mutex and the state changes before the     *)
+(* mutex is released.                                                          *)
 (* Toggle FixGracefulClose: FALSE = as written: the terminating side closes    *)
 (* its socket at once; when the peer's data is unread (or still arrives) the   *)
 (* connection is reset and what was written but not yet received - the         *)
@@ -22,7 +28,7 @@
 (* lets the written data reach the peer (not implemented: open finding).       *)
 EXTENDS Integers, Sequences, FiniteSets, TLC, ChanProps
 
-CONSTANTS Senders, PerSender, K, W, FixSessionWriteLock, FixGracefulClose
+CONSTANTS Senders, PerSender, K, W, FixSessionWriteLock, FixGracefulClose, FixSendGuardUnderLock
 
 VARIABLES spc, sIdx, mu, writers, sState, wire,
           fin,                      \* server's FinishSession: "none" | "checked" | "writing" | "sent" | "closed"
@@ -49,8 +55,12 @@ SendCheck(g) ==
   /\ UNCHANGED <<mu, writers, sState, wire, fin, rpc, held, streams, sesq, cState, rcvDone, peerBusy, reset>>
 SendLock(g) ==
   /\ spc[g] = "checked" /\ mu = "none"
-  /\ mu' = g /\ spc' = [spc EXCEPT ![g] = "locked"]
-  /\ UNCHANGED <<sIdx, writers, sState, wire, fin, rpc, held, streams, sesq, cState, rcvDone, obs, peerBusy, reset>>
+  /\ IF FixSendGuardUnderLock /\ sState # "established"
+     THEN \* the session ended while this send was waiting: it returns an error and emits nothing
+          /\ sIdx' = [sIdx EXCEPT ![g] = PerSender] /\ spc' = [spc EXCEPT ![g] = "idle"]
+          /\ obs' = Append(obs, [Ev("senderr") EXCEPT !.g = g]) /\ UNCHANGED mu
+     ELSE mu' = g /\ spc' = [spc EXCEPT ![g] = "locked"] /\ UNCHANGED <<sIdx, obs>>
+  /\ UNCHANGED <<writers, sState, wire, fin, rpc, held, streams, sesq, cState, rcvDone, peerBusy, reset>>
 SendWriteBegin(g) ==
   /\ spc[g] = "locked"
   /\ writers' = writers \cup {g} /\ spc' = [spc EXCEPT ![g] = "writing"]
@@ -77,9 +87,14 @@ FinWriteEnd ==
   /\ fin = "writing" /\ Len(wire) < W
   /\ wire' = Append(wire, FinEnv) /\ writers' = writers \ {"fin"}
   /\ mu' = IF mu = "fin" THEN "none" ELSE mu
-  /\ sState' = "finished" /\ fin' = "sent"
+  /\ IF FixSendGuardUnderLock THEN sState' = "finished" /\ fin' = "sent"
+                               ELSE UNCHANGED sState /\ fin' = "written"
   /\ obs' = Append(obs, [Ev("finsent") EXCEPT !.g = "S"])
   /\ UNCHANGED <<spc, sIdx, rpc, held, streams, sesq, cState, rcvDone, peerBusy, reset>>
+FinSetState ==      \* as written: the state changes once the mutex has been released
+  /\ fin = "written"
+  /\ sState' = "finished" /\ fin' = "sent"
+  /\ UNCHANGED <<spc, sIdx, mu, writers, wire, rpc, held, streams, sesq, cState, rcvDone, peerBusy, reset, obs>>
 
 (* the terminating call closes the connection *)
 FinClose ==
@@ -134,7 +149,7 @@ Init == /\ spc = [g \in Senders |-> "idle"] /\ sIdx = [g \in Senders |-> 0] /\ m
         /\ peerBusy \in BOOLEAN /\ reset = FALSE
 Next == /\ ~HasEnd(obs)
         /\ \/ \E g \in Senders : SendCheck(g) \/ SendLock(g) \/ SendWriteBegin(g) \/ SendWriteEnd(g)
-           \/ FinCheck \/ FinWriteBegin \/ FinWriteEnd
+           \/ FinCheck \/ FinWriteBegin \/ FinWriteEnd \/ FinSetState
            \/ FinClose \/ RcvReceive \/ RcvRoute \/ RcvReset \/ \E k \in Kinds : Consume(k)
            \/ End
 Spec == Init /\ [][Next]_vars
@@ -145,7 +160,7 @@ WriterExclusion == Cardinality(writers) <= 1
 P_C04 == C04_NoFabrication(obs) /\ C04_AtMostOnce(obs) /\ C04_PerSenderOrder(obs)
          /\ (HasEnd(obs) => C04_AllDelivered(obs))
 P_C13 == HasEnd(obs) => C13_ModelCleanEnd(obs)
-(* once the session has been finished nothing is emitted any more *)
+(* C06, established phase: once the terminal session envelope is written nothing is emitted any more *)
 NoDataAfterFinished == \A n \in 1 .. Len(obs) : obs[n].k = "finsent" =>
                           \A m \in (n + 1) .. Len(obs) : obs[m].k # "sent"
 TypeOK == Len(wire) <= W /\ mu \in Senders \cup {"none", "fin"}
